@@ -33,8 +33,11 @@ VARIABLES
   deleteMu,
   pc, loc,   \* per-process control state and locals
   absLive, absNext,  \* abstract log, updated at linearization points
-  budget     \* remaining calls per process
-vars == <<file, vis, robj, readers, wr, writerMu, readersW, readersR, deleteMu, pc, loc, absLive, absNext, budget>>
+  budget,    \* remaining calls per process
+  hist       \* history variable (hidden by VIEW): the schedule so far, for replay through the pause points
+vars == <<file, vis, robj, readers, wr, writerMu, readersW, readersR, deleteMu, pc, loc, absLive, absNext, budget, hist>>
+view == <<file, vis, robj, readers, wr, writerMu, readersW, readersR, deleteMu, pc, loc, absLive, absNext, budget>>
+Log(p, a, x) == hist' = Append(hist, [p |-> p, a |-> a, x |-> x])
 
 Procs == {"P", "D", "C"}
 LastOf(s) == s[Len(s)]
@@ -52,6 +55,7 @@ Init ==
   /\ loc = [p \in Procs |-> [x |-> 0]]
   /\ absLive = <<>> /\ absNext = 0
   /\ budget = [p \in Procs |-> CASE p = "P" -> MaxOff [] p = "D" -> NDel [] OTHER -> NCons]
+  /\ hist = <<>>
 
 CanR(p) == readersW = "-"
 CanW(p) == readersW = "-" /\ readersR = {}
@@ -235,10 +239,14 @@ DReader ==
   /\ pc' = [pc EXCEPT !["D"] = "idle"] /\ deleteMu' = "-"
   /\ UNCHANGED <<wr, writerMu, readersW, readersR, loc, absNext, budget>>
 
-Next == \/ PLock \/ PRoll \/ PSwap \/ PWrite \/ PIndex
-        \/ (\E off \in -2..(MaxOff + 1) : CLock(off)) \/ CRead
-        \/ (\E o \in 0..(MaxOff - 1) : DStart(o)) \/ DFind \/ DPhase1 \/ DRewrite
-        \/ DPhase2Head \/ DPhase2NotHead \/ DReader
+\* every step also records itself in the schedule (hist)
+Next == \/ (Log("P", "PLock", 0) /\ PLock) \/ (Log("P", "PRoll", 0) /\ PRoll) \/ (Log("P", "PSwap", 0) /\ PSwap)
+        \/ (Log("P", "PWrite", 0) /\ PWrite) \/ (Log("P", "PIndex", 0) /\ PIndex)
+        \/ (\E off \in -2..(MaxOff + 1) : Log("C", "CLock", off) /\ CLock(off)) \/ (Log("C", "CRead", 0) /\ CRead)
+        \/ (\E o \in 0..(MaxOff - 1) : Log("D", "DStart", o) /\ DStart(o)) \/ (Log("D", "DFind", 0) /\ DFind)
+        \/ (Log("D", "DPhase1", 0) /\ DPhase1) \/ (Log("D", "DRewrite", 0) /\ DRewrite)
+        \/ (Log("D", "DPhase2Head", 0) /\ DPhase2Head) \/ (Log("D", "DPhase2NotHead", 0) /\ DPhase2NotHead)
+        \/ (Log("D", "DReader", 0) /\ DReader)
 Spec == Init /\ [][Next]_vars
 
 \* sequential sanity: whenever everybody is idle, a full scan equals the abstract log
